@@ -5,12 +5,14 @@ package main
 import (
 	"flag"
 	"fmt"
+	"go/ast"
 	"os"
 	"sort"
 	"strconv"
 	"strings"
 	"time"
 
+	"verif/checker/internal/inl"
 	"verif/checker/internal/ir"
 	"verif/checker/internal/report"
 	"verif/checker/internal/rules"
@@ -23,6 +25,9 @@ func main() {
 	verif := flag.String("verif", "/verif", "verif directory (evidence/, replay/, known_findings.json)")
 	list := flag.Bool("list", false, "list obligations")
 	dump := flag.String("dump", "", "dump SSA of the named function and exit")
+	listFuncs := flag.Bool("list-funcs", false, "print the baseline keys of every declared module function and exit (regenerates internal/inl/baseline_funcs.txt)")
+	noInline := flag.Bool("no-inline", false, "do not inline functions that are new relative to the pinned tree")
+	showSrc := flag.Bool("show-inlined", false, "print the rewritten source files and exit")
 	flag.Parse()
 	if *tier != "quick" && *tier != "thorough" {
 		fmt.Println("CHECK-BROKEN bad tier")
@@ -38,7 +43,7 @@ func main() {
 			ids = append(ids, id)
 		}
 		sort.Strings(ids)
-	} else if *dump == "" {
+	} else if *dump == "" && !*listFuncs && !*showSrc {
 		for _, id := range strings.Split(*prop, ",") {
 			if _, ok := rules.Registry[id]; !ok {
 				fmt.Printf("CHECK-BROKEN unknown property %q\n", id)
@@ -52,6 +57,57 @@ func main() {
 	if err != nil {
 		fmt.Printf("CHECK-BROKEN cannot analyse %s: %v\n", *repo, err)
 		os.Exit(2)
+	}
+	if *listFuncs {
+		var names []string
+		for _, pr := range []*ir.Program{p, p.Cache} {
+			for _, pk := range pr.Mod {
+				for _, f := range pk.Syntax {
+					if ir.ExcludedFile(pr.Fset.Position(f.Pos()).Filename) {
+						continue
+					}
+					for _, d := range f.Decls {
+						if fd, ok := d.(*ast.FuncDecl); ok {
+							names = append(names, inl.FuncName(pk.PkgPath, fd))
+						}
+					}
+				}
+			}
+		}
+		sort.Strings(names)
+		for _, n := range names {
+			fmt.Println(n)
+		}
+		os.Exit(0)
+	}
+	var inlined, keptNew, newFuncs []string
+	inlineNote := ""
+	if !*noInline {
+		overlay := map[string][]byte{}
+		for _, pr := range []*ir.Program{p, p.Cache} {
+			tr := inl.Transform(pr.Mod, ir.ExcludedFile)
+			for k, v := range tr.Overlay {
+				overlay[k] = v
+			}
+			inlined = append(inlined, tr.Inlined...)
+			keptNew = append(keptNew, tr.Kept...)
+			newFuncs = append(newFuncs, tr.New...)
+		}
+		if *showSrc {
+			for k, v := range overlay {
+				fmt.Printf("==== %s\n%s\n", k, v)
+			}
+			os.Exit(0)
+		}
+		if len(overlay) > 0 {
+			p2, err2 := ir.LoadOverlay(*repo, overlay)
+			if err2 != nil {
+				inlineNote = "inlining of new helper functions was abandoned (the rewritten source did not load: " + err2.Error() + "); the tree was analysed as written"
+				inlined = nil
+			} else {
+				p = p2
+			}
+		}
 	}
 	loadS := time.Since(t0).Seconds()
 	if *dump != "" {
@@ -91,6 +147,14 @@ func main() {
 		run.FuncsTotal = len(p.Funcs) + len(p.Cache.Funcs)
 		run.NotDecided = pr.NotDecided
 		run.Extra["load_and_ssa_build_s"] = loadS
+		if len(newFuncs) > 0 {
+			run.Extra["functions_new_relative_to_pinned_tree"] = newFuncs
+			run.Extra["new_function_calls_inlined_before_analysis"] = inlined
+			run.Extra["new_functions_not_inlined"] = keptNew
+		}
+		if inlineNote != "" {
+			run.Extra["inlining_note"] = inlineNote
+		}
 		run.Assumptions = rules.Assumptions
 		c := &rules.Ctx{P: p, R: run, Tier: *tier}
 		c.Run(pr)
